@@ -1500,6 +1500,7 @@ theorem C18_pin_skeleton : FactsC18.skeleton = [
   ("models.IndexVectorFlatParameters.Validate", "if p.DistanceMetric != DistanceEuclidean && p.DistanceMetric != DistanceCosine && p.DistanceMetric != DistanceDot && p.DistanceMetric != DistanceHamming && p.DistanceMetric != DistanceJaccard && p.DistanceMetric != DistanceHaversine"),
   ("models.IndexVectorFlatParameters.Validate", "if p.DistanceMetric == DistanceHaversine && p.VectorSize != 2"),
   ("models.IndexVectorFlatParameters.Validate", "if p.Quantizer != nil"),
+  ("models.IndexVectorFlatParameters.Validate", "if err != nil"),
   ("models.IndexVectorVamanaParameters.Validate", "if p.VectorSize < 1 || p.VectorSize > 4096"),
   ("models.IndexVectorVamanaParameters.Validate", "if p.DistanceMetric != DistanceEuclidean && p.DistanceMetric != DistanceCosine && p.DistanceMetric != DistanceDot && p.DistanceMetric != DistanceHamming && p.DistanceMetric != DistanceJaccard && p.DistanceMetric != DistanceHaversine"),
   ("models.IndexVectorVamanaParameters.Validate", "if p.DistanceMetric == DistanceHaversine && p.VectorSize != 2"),
@@ -1507,6 +1508,7 @@ theorem C18_pin_skeleton : FactsC18.skeleton = [
   ("models.IndexVectorVamanaParameters.Validate", "if p.DegreeBound < 32 || p.DegreeBound > 64"),
   ("models.IndexVectorVamanaParameters.Validate", "if p.Alpha < 1.1 || p.Alpha > 1.5"),
   ("models.IndexVectorVamanaParameters.Validate", "if p.Quantizer != nil"),
+  ("models.IndexVectorVamanaParameters.Validate", "if err != nil"),
   ("models.IndexTextParameters.Validate", "if p.Analyser != \"standard\""),
   ("models.Quantizer.Validate", "switch q.Type"),
   ("models.Quantizer.Validate", "case QuantizerNone"),
@@ -1515,6 +1517,12 @@ theorem C18_pin_skeleton : FactsC18.skeleton = [
   ("models.Quantizer.Validate", "default"),
   ("models.Quantizer.Validate", "if q.Binary == nil"),
   ("models.Quantizer.Validate", "if q.Product == nil"),
+  ("models.Quantizer.ValidateFor", "if q.Type != QuantizerProduct || q.Product == nil"),
+  ("models.Quantizer.ValidateFor", "switch distanceMetric"),
+  ("models.Quantizer.ValidateFor", "case DistanceHamming, DistanceJaccard"),
+  ("models.Quantizer.ValidateFor", "case DistanceEuclidean, DistanceCosine, DistanceDot"),
+  ("models.Quantizer.ValidateFor", "default"),
+  ("models.Quantizer.ValidateFor", "if vectorSize%uint(q.Product.NumSubVectors) != 0"),
   ("models.BinaryQuantizerParamaters.Validate", "if b.Threshold == nil && (b.TriggerThreshold < 0 || b.TriggerThreshold > 50000)"),
   ("models.BinaryQuantizerParamaters.Validate", "if b.DistanceMetric != DistanceHamming && b.DistanceMetric != DistanceJaccard"),
   ("models.ProductQuantizerParameters.Validate", "if p.NumCentroids < 2 || p.NumCentroids > 256"),
